@@ -307,6 +307,64 @@ fn gen_obj(r: &mut Rng, depth: u32) -> String {
     format!("{{{}}}", fs.join(","))
 }
 
+/// Order-sensitive programs over an array (`.`): every one depends on jq's total order of its elements.
+pub const ORDER_PROGS: &[&str] = &[
+    "sort", "reverse | sort", "sort_by(.)", "unique", "unique_by(.)", "min", "max", "min_by(.), max_by(.)", "group_by(.)",
+    "[.[0] < .[1], .[1] < .[0], .[0] > .[1], .[1] > .[0], .[0] <= .[1], .[0] >= .[1]]",
+    "[.[] as $a | .[] as $b | $a < $b]", "[.[] as $a | .[] as $b | $a >= $b]", "sort == (reverse | sort)", "map([.]) | sort | map(.[0])",
+    "[limit(3; sort[])]", "sort | first, last", "(sort | .[0]) == min", "[.[] | {v: .}] | sort_by(.v) | map(.v)", "map({w: .}) | max",
+];
+
+/// Arrays of 2–6 objects over ONE key set (2–4 keys), each object with its own insertion order of the
+/// keys, values chosen so that pairs differ at two or more keys in opposite directions; sometimes
+/// nested (objects inside the values, or the objects wrapped in arrays). The comparison of such
+/// objects depends on jq's rule "values are compared in sorted-key order", not on insertion order.
+pub const FAMILY_FIXED: &str = r#"[{"b":1,"a":2},{"a":1,"b":2}]"#;
+
+pub fn gen_family(r: &mut Rng) -> String {
+    let pool = ["b", "a", "c", "é", "A", "ab", "k", "z"];
+    let nk = r.range(2, 4) as usize;
+    let mut keys: Vec<&str> = Vec::new();
+    while keys.len() < nk {
+        let k = *r.pick(&pool);
+        if !keys.contains(&k) {
+            keys.push(k);
+        }
+    }
+    let signs: Vec<i64> = (0..nk).map(|i| if (i + r.below(2) as usize) % 2 == 0 { 1 } else { -1 }).collect();
+    let n = r.range(2, 6) as usize;
+    let shape = r.below(8);
+    let mut objs = Vec::new();
+    for j in 0..n {
+        // permuted insertion order
+        let mut order: Vec<usize> = (0..nk).collect();
+        for i in (1..nk).rev() {
+            let t = r.usize_below(i + 1);
+            order.swap(i, t);
+        }
+        let base = r.below(3) as i64;
+        let fields: Vec<String> = order
+            .iter()
+            .map(|&i| {
+                let val = (j as i64 + base) * signs[i] + if r.chance(1, 5) { r.below(2) as i64 } else { 0 };
+                let v = match shape {
+                    0 => format!("[{val}]"),
+                    1 => format!("{{\"y\":{val},\"x\":{}}}", -val),
+                    2 => format!("\"{}\"", ["a", "b", "c", "d", "e", "f", "g", "h", "i"][(val.rem_euclid(9)) as usize]),
+                    _ => val.to_string(),
+                };
+                format!("\"{}\":{v}", keys[i])
+            })
+            .collect();
+        objs.push(format!("{{{}}}", fields.join(",")));
+    }
+    match r.below(6) {
+        0 => format!("[{}]", objs.iter().map(|o| format!("[{o}]")).collect::<Vec<_>>().join(",")),
+        1 => format!("[{}]", objs.iter().map(|o| format!("{{\"w\":{o}}}")).collect::<Vec<_>>().join(",")),
+        _ => format!("[{}]", objs.join(",")),
+    }
+}
+
 /// The "standard root": an object with fields of known types, so typed programs are mostly valid.
 pub fn gen_root(r: &mut Rng) -> String {
     let nums = |r: &mut Rng| {
@@ -1059,6 +1117,21 @@ pub fn tame_big_numbers(input: &str) -> String {
 }
 
 pub fn gen(tier: Tier, r: &mut Rng, emit: &mut dyn FnMut(String)) {
+    // order-sensitive programs on object families (same key set, permuted insertion orders): both
+    // evaluators share one comparator, so only the model comparison can see a wrong order here
+    for p in ORDER_PROGS {
+        emit(format!("C23 ev {} {}", hex_bytes(p.as_bytes()), hex_bytes(FAMILY_FIXED.as_bytes())));
+    }
+    for _ in 0..(if tier == Tier::Quick { 400 } else { 20_000 }) {
+        let input = gen_family(r);
+        let p = *r.pick(ORDER_PROGS);
+        let prog = match r.below(4) {
+            0 => format!("[{p}]"),
+            1 => format!("{p} | tojson"),
+            _ => p.to_string(),
+        };
+        emit(format!("C23 ev {} {}", hex_bytes(prog.as_bytes()), hex_bytes(input.as_bytes())));
+    }
     let n = if tier == Tier::Quick { 12_000 } else { 400_000 };
     let trace = std::env::var("SV_TRACE").is_ok();
     for i in 0..n {
